@@ -32,7 +32,7 @@ def simd_copy_spec(vb):
     sp['loops'] = {
         0: dict(invariant=['__CPROVER_same_object(m_form, from) && __CPROVER_same_object(m_to, to)',
                            '%s(m_form) == %s(m_to) && %s(m_form) %% %d == 0' % (PO, PO, PO, vb),
-                           '0 <= %s(m_form) && (unsigned long long)%s(m_form) <= (unsigned long long)m_size * %d' % (PO, PO, vb),
+                           '0 <= %s(m_form) && (unsigned long long)%s(m_form) < (unsigned long long)m_size * %d' % (PO, PO, vb),
                            '%s(end) == (long long)m_size * %d && __CPROVER_same_object(end, from)' % (PO, vb),
                            '(long long)g_k < %s(m_form) ==> ((const unsigned char *)to)[g_k] == ((const unsigned char *)from)[g_k]' % PO],
                 decreases='(long long)m_size * %d - %s(m_form)' % (vb, PO),
@@ -46,7 +46,7 @@ def simd_zero_spec(vb):
     sp = zero_spec('')
     sp['loops'] = {
         0: dict(invariant=['__CPROVER_same_object(m_pointer, pointer)', '%s(m_pointer) %% %d == 0' % (PO, vb),
-                           '0 <= %s(m_pointer) && (unsigned long long)%s(m_pointer) <= (unsigned long long)m_size * %d' % (PO, PO, vb),
+                           '0 <= %s(m_pointer) && (unsigned long long)%s(m_pointer) < (unsigned long long)m_size * %d' % (PO, PO, vb),
                            '%s(end) == (long long)m_size * %d && __CPROVER_same_object(end, pointer)' % (PO, vb),
                            '(long long)g_k < %s(m_pointer) ==> ((const unsigned char *)pointer)[g_k] == 0' % PO],
                 decreases='(long long)m_size * %d - %s(m_pointer)' % (vb, PO),
